@@ -494,6 +494,49 @@ theorem removed_right_is_named (cfg : Cfg) (first blockish : Bool) (m : Mark) (t
     (m = .plus ∨ (m = .none ∧ (blockish = false ∨ cfg.lstrip = false ∨ atLineStart first t = false)) →
       rightCut cfg first blockish m t = 0) := rightCut_named cfg first blockish m t
 
+/-- **Whole-source partition.**  Let `tm'` be the template without its one trailing line break
+    (rule 1; `tm` itself under `keep_trailing_newline`).  The spans `specParts` — for every text the
+    prefix the tag on its left removes, the printed part and the suffix the tag on its right removes,
+    and every tag — in order ARE the source (every character belongs to exactly one span); the
+    output of the rules is what the printed spans and the tags contribute; and the removed spans hold
+    nothing but whitespace.  With `lex_eq_spec` / `C10_main` the same holds for what the tokenizer
+    prints.  (Inside a tag the finer partition into tokens and blanks is `interior_is_partitioned`.) -/
+theorem source_is_partitioned (cfg : Cfg) (vm bm : List Char) (d : Delims) (tm : Tmpl) :
+    let tm' := if cfg.keep then tm else stripFinal tm
+    let parts := specParts cfg true 0 tm'.head tm'.tail
+    parts.flatMap (Part.src d) = unparse d tm' ∧
+    parts.flatMap (Part.out cfg vm bm) = specRender cfg vm bm tm ∧
+    (∀ s, Part.removed s ∈ parts → ∀ c ∈ s, isWs c = true) := by
+  intro tm' parts
+  refine ⟨specParts_src cfg d _ true 0 _, ?_, ?_⟩
+  · rw [specParts_out]; rfl
+  · exact specParts_removed_ws cfg _ true 0 _ (by simp)
+
+/-- … for a template inside the hypotheses of `lex_eq_spec` the partitioned text is the source as
+    `Tokenizer::new` keeps it (`prepare`: without the one trailing line break unless
+    `keep_trailing_newline`), and the output of the printed spans and the tags is what the
+    tokenizer prints. -/
+theorem lexed_source_is_partitioned (cfg : Cfg) (vm bm : List Char) (d : Delims) (tm : Tmpl)
+    (hg : goodDelims d = true) (hf : delimFree d tm = true) :
+    let tm' := if cfg.keep then tm else stripFinal tm
+    let parts := specParts cfg true 0 tm'.head tm'.tail
+    parts.flatMap (Part.src d) = prepare cfg (unparse d tm) ∧
+    renderRes vm bm (lex cfg d (findStart d) (unparse d tm)) = some (parts.flatMap (Part.out cfg vm bm)) ∧
+    (∀ s, Part.removed s ∈ parts → ∀ c ∈ s, isWs c = true) := by
+  intro tm' parts
+  obtain ⟨h1, h2, h3⟩ := source_is_partitioned cfg vm bm d tm
+  refine ⟨?_, ?_, h3⟩
+  · rw [prepare_unparse cfg (good_of_goodDelims hg) tm hf]; exact h1
+  · rw [lex_eq_spec cfg vm bm d tm hg hf]; exact congrArg some h2.symm
+
+/-- `a\n  {% if t -%} \n x{# c #}\n` under trim_blocks + lstrip_blocks: 10 spans -/
+example :
+    (specParts ⟨true, true, true⟩ true 0 ['a', '\n', ' ', ' ']
+      [(⟨.block (vocabIf false), .none, .minus⟩, [' ', '\n', ' ', 'x']), (⟨.comment [' ', 'c', ' '], .none, .none⟩, ['\n'])]).length = 10 ∧
+    (specParts ⟨true, true, true⟩ true 0 ['a', '\n', ' ', ' ']
+      [(⟨.block (vocabIf false), .none, .minus⟩, [' ', '\n', ' ', 'x']), (⟨.comment [' ', 'c', ' '], .none, .none⟩, ['\n'])]).flatMap
+        (Part.out ⟨true, true, true⟩ ['V'] ['B']) = ['a', '\n', 'B', 'x'] := by decide
+
 /-- `x \r\n` behind `%}` under trim_blocks loses 0 characters (it does not start with the line
     break), `\r\nx` loses 2; `a\n \t` in front of `{%` under lstrip_blocks loses the 2 blanks, `a \t`
     none -/
